@@ -2,12 +2,18 @@
 // imports (or requires) N data files exports the N imported values as an
 // array; each value must be exactly the file's text / bytes / JSON value.
 //
-// stdin : {"runs":[{"name","dir","file","format","global","outdir","loader","polyfill",
-//                   "items":[{"b64": <file bytes>}]}]}
-// stdout: {"runs":[{"name","error":null|string,"bad":[{"i","want","got"}], "checked":n}]}
+// stdin : {"itemsets":{<name>:[{"name","file","ctx","units":[..],"spec":bool}]},
+//          "runs":[{"name","dir","file","format","global","outdir","loader","polyfill",
+//                   "itemset":<name>,"subset":[indices]|absent}]}
+// stdout: {"runs":[{"name","error":null|string,"bad":[{"i","want","got"}],
+//                   "drift":[{"i","spec","platform"}],"checked":n}]}
 //
-// The expectations are computed here from the bytes alone, with the platform's
-// own decoders (TextDecoder, Buffer, fetch() of data: URLs, JSON.parse).
+// The file bytes are read from the project directory.  The expectations are
+// computed here from the bytes alone, with the platform's own decoders
+// (TextDecoder, Buffer, fetch() of data: URLs, JSON.parse); where the
+// specification (DataLoad) predicts the value (text, json: the UTF-16 code
+// units of the string) the prediction must agree with the platform, otherwise
+// the item is reported as drift and not judged.
 'use strict'
 const fs = require('fs')
 const path = require('path')
@@ -56,8 +62,16 @@ async function load(run) {
   return Array.isArray(g) ? g : g && g.default
 }
 
-async function check(run) {
-  const res = { name: run.name, error: null, bad: [], checked: 0 }
+function fromUnits(units) {
+  let s = ''
+  for (let i = 0; i < units.length; i += 4096) s += String.fromCharCode.apply(null, units.slice(i, i + 4096))
+  return s
+}
+
+async function check(run, itemsets) {
+  const res = { name: run.name, error: null, bad: [], drift: [], checked: 0 }
+  const all = itemsets[run.itemset]
+  const idx = run.subset ? run.subset : all.map((_, i) => i)
   if (run.polyfill) {
     if (!Uint8Array.fromBase64) Object.defineProperty(Uint8Array, 'fromBase64', { value: fromBase64, configurable: true, writable: true })
   } else if (Uint8Array.fromBase64 && Uint8Array.fromBase64 === fromBase64) {
@@ -70,19 +84,25 @@ async function check(run) {
     res.error = 'loading the bundle threw: ' + (e && e.message)
     return res
   }
-  if (!Array.isArray(values) || values.length !== run.items.length) {
-    res.error = 'the bundle exports ' + show(values) + ' instead of ' + run.items.length + ' values'
+  if (!Array.isArray(values) || values.length !== idx.length) {
+    res.error = 'the bundle exports ' + show(values).slice(0, 200) + ' instead of ' + idx.length + ' values'
     return res
   }
-  for (let i = 0; i < run.items.length; i++) {
-    const bytes = Buffer.from(run.items[i].b64, 'base64')
-    const got = values[i]
+  for (let k = 0; k < idx.length; k++) {
+    const i = idx[k]
+    const item = all[i]
+    const bytes = fs.readFileSync(path.join(run.dir, item.file))
+    const got = values[k]
     let ok = false, want
     try {
       switch (run.loader) {
         case 'text':
           // documented: the text loader decodes UTF-8 and strips a leading BOM (CHANGELOG 2025, #3935)
           want = new TextDecoder('utf-8').decode(bytes)
+          if (item.spec && fromUnits(item.units) !== want) {
+            res.drift.push({ i, spec: show(fromUnits(item.units)), platform: show(want) })
+            continue
+          }
           ok = got === want
           break
         case 'base64':
@@ -115,6 +135,15 @@ async function check(run) {
           let text = bytes.toString('utf8')
           if (text.charCodeAt(0) === 0xFEFF) text = text.slice(1)
           want = JSON.parse(text)
+          if (item.spec) {
+            const str = fromUnits(item.units)
+            const sv = item.ctx === 'val' ? { a: str } : item.ctx === 'key' ? { [str]: 1 } : str
+            // an own "__proto__" key cannot be written as a computed member of a literal only for that name; not in the alphabet
+            if (!same(sv, want)) {
+              res.drift.push({ i, spec: show(sv), platform: show(want) })
+              continue
+            }
+          }
           ok = same(want, got)
           break
         }
@@ -131,7 +160,7 @@ async function check(run) {
 async function main() {
   const input = JSON.parse(fs.readFileSync(0, 'utf8'))
   const out = []
-  for (const run of input.runs) out.push(await check(run))
+  for (const run of input.runs) out.push(await check(run, input.itemsets))
   process.stdout.write(JSON.stringify({ runs: out }))
 }
 main().catch(e => { process.stderr.write(String(e && e.stack || e)); process.exit(3) })
